@@ -34,7 +34,8 @@ func init() {
 				Assumptions: []string{"happens-before edges of the modelled primitives mirror sync.Mutex/RWMutex/WaitGroup/Once and channel semantics; where exact modelling is awkward more edges are issued (may hide, cannot invent a race)",
 					"statement-level scheduling points in loader.updates, crypt.go, types.go:TrimSpace and the handler/authorizer/authenticator/accounter files; elsewhere preemption happens at synchronisation and I/O operations",
 					"timers are virtual: a timer fires when the harness advanced the clock to it or when no program thread can run, at most 4 times per execution",
-					"ThreadSanitizer's happens-before includes the standard library's own edges (sync.Pool annotations inside fmt/json)"},
+					"ThreadSanitizer's happens-before includes the standard library's own edges (sync.Pool annotations inside fmt/json)",
+					"ThreadSanitizer keeps four accesses per 8-byte word: at bounds <= 1 every schedule with a deviation is judged twice (counter race_verdict_reruns), a report in either run counts; a race can still be missed in one run and reported in another, never the reverse"},
 				Extra: map[string]interface{}{"deviation_bound_target": b}}
 		},
 		Workers:      constInt(0, 0),
